@@ -13,7 +13,16 @@ CASE_HEADER = "From Coq Require Import List ZArith.\nFrom EV Require Import PySl
 RULE = ("random sets of 1..5 state trajectories (lengths 1..10, incl. shorter than the lag), 2..5 states, lag 1..6, "
         "both window modes, explicit/inferred state count, trailing -1 padding, a quarter of the cases in int8/uint8/int16/int32 with state ids near n_states^2 overflow; each case is run on the real "
         "assigns_to_counts as RaggedArray, as -1-padded ndarray, with the trajectories reversed and split in two "
-        "halves; non-trivial := at least one trajectory longer than the lag and >= 2 distinct states")
+        "halves; non-trivial := at least one trajectory longer than the lag and >= 2 distinct states. "
+        "Stream hist: ONE container object (-1-padded 2-D ndarray in int64/int32/int16, C or F order, or RaggedArray) is counted, edited in place "
+        "(frames written into the padding, rows truncated, states lumped X[X==s]=d, single frames / whole rows overwritten, rows swapped, "
+        "RaggedArray.append) and counted again with varying lag/window/max_n_states, also after `del` + reallocation of an equally "
+        "shaped container and interleaved with counts of an unrelated object; every count is compared with the brute-force pair count "
+        "of the content at that moment (and with the Coq model), and every call is bracketed by argument snapshots. "
+        "Stream flag: sliding_window given as True/False, np.True_/np.False_ (also read out of a bool array), 1/0, np.int64/np.uint8 0/1 with lag >= 2 mostly, "
+        "through assigns_to_counts (ragged and padded) and MSM(..., sliding_window=flag).fit(X).tcounts_. "
+        "Stream refit: one MSM estimator (max_n_states inferred or given) fitted on 2..4 data sets with differing numbers of observed states; "
+        "tcounts_ after every fit is compared with the brute-force count of that data set alone")
 TRUSTED = ["translator/tr_counts.py (slice expressions of _transitions_helper -> PySlice.slice_list)",
            "modelled not verified: scipy coo_matrix duplicate summation, NumPy fancy indexing a[np.where(a != -1)]"]
 ASSUMPTIONS = ["-1 occurs only as trailing padding (property wording); state ids are >= 0"]
@@ -45,6 +54,13 @@ def generate(rng, tier):
                         t[i] = big - rng.randrange(3)
             c["maxn"] = rng.choice([None, big + 1])
         cases.append(c)
+    k = 1 if tier == "quick" else 8
+    for _ in range(200 * k):
+        cases.append(_gen_hist(rng))
+    for _ in range(120 * k):
+        cases.append(_gen_flag(rng))
+    for _ in range(60 * k):
+        cases.append(_gen_refit(rng))
     if tier == "thorough":
         # exhaustive small scope: <= 2 trajectories of length <= 4 over 2 states, lag <= 4, both modes
         import itertools
@@ -57,14 +73,394 @@ def generate(rng, tier):
     return cases
 
 
+# ---------------------------------------------------------------------------------------------
+# streams: histories on one container object, forms of the sliding_window flag, estimator refits
+# ---------------------------------------------------------------------------------------------
+FLAG_TRUTH = {"True": True, "False": False, "np.True_": True, "np.False_": False, "1": True, "0": False,
+              "np.int64(1)": True, "np.int64(0)": False, "np.uint8(1)": True, "np.uint8(0)": False,
+              "boolarr[0]": True, "boolarr[1]": False}
+
+
+def _flag(form):
+    return {"True": True, "False": False, "np.True_": np.True_, "np.False_": np.False_, "1": 1, "0": 0,
+            "np.int64(1)": np.int64(1), "np.int64(0)": np.int64(0), "np.uint8(1)": np.uint8(1),
+            "np.uint8(0)": np.uint8(0), "boolarr[0]": np.array([True, False])[0],
+            "boolarr[1]": np.array([True, False])[1]}[form]
+
+
+def _apply(cur, st):
+    """Effect of one history step on the content (list of state lists); pure."""
+    cur = [list(t) for t in cur]
+    op = st["op"]
+    if op == "extend":
+        cur[st["row"]] += st["vals"]
+    elif op == "truncate":
+        cur[st["row"]] = cur[st["row"]][:st["n"]]
+    elif op == "lump":
+        cur = [[st["dst"] if x == st["src"] else x for x in t] for t in cur]
+    elif op == "set":
+        cur[st["row"]][st["col"]] = st["val"]
+    elif op == "setrow":
+        cur[st["row"]] = list(st["vals"])
+    elif op == "swap":
+        i, j = st["i"], st["j"]
+        cur[i], cur[j] = cur[j], cur[i]
+    elif op == "append":
+        cur += [list(t) for t in st["rows"]]
+    elif op == "realloc":
+        cur = [list(t) for t in st["trjs"]]
+    return cur
+
+
+def _count_params(rng, ns, lags=(1, 1, 2, 2, 3, 4)):
+    return {"lag": rng.choice(lags), "sliding": rng.random() < 0.6, "maxn": rng.choice([None, None, ns, ns + 1])}
+
+
+def _gen_hist(rng):
+    cont = rng.choice(["padded", "padded", "ragged"])
+    ns = rng.randint(2, 5)
+    ntr = rng.randint(1, 4)
+    c = {"kind": "hist", "container": cont, "dtype": rng.choice(["int64", "int64", "int32", "int16"]), "ns": ns}
+    if cont == "padded":
+        W = rng.randint(4, 12)
+        c["width"], c["order"] = W, rng.choice(["C", "C", "F"])
+        cur = [[rng.randrange(ns) for _ in range(rng.randint(1, W))] for _ in range(ntr)]
+    else:
+        W = None
+        cur = [[rng.randrange(ns) for _ in range(rng.randint(1, 9))] for _ in range(ntr)]
+    c["trjs"] = [list(t) for t in cur]
+    first = dict(_count_params(rng, ns), op="count")
+    steps = [first]
+    last = first
+
+    def mutation():
+        ops = ["lump", "set", "setrow", "realloc"]
+        if cont == "padded":
+            ops += ["extend", "extend", "truncate"] + (["swap"] if len(cur) >= 2 else [])
+        else:
+            ops += ["append"]
+        for _ in range(20):
+            op = rng.choice(ops)
+            row = rng.randrange(len(cur))
+            if op == "extend":
+                room = W - len(cur[row])
+                if room > 0:
+                    return {"op": op, "row": row, "vals": [rng.randrange(ns) for _ in range(rng.randint(1, min(room, 4)))]}
+            elif op == "truncate":
+                if len(cur[row]) > 1:
+                    return {"op": op, "row": row, "n": rng.randint(1, len(cur[row]) - 1)}
+            elif op == "lump":
+                present = sorted({x for t in cur for x in t})
+                src = rng.choice(present)
+                dst = rng.choice([x for x in range(ns) if x != src])
+                return {"op": op, "src": src, "dst": dst}
+            elif op == "set":
+                col = rng.randrange(len(cur[row]))
+                return {"op": op, "row": row, "col": col, "val": (cur[row][col] + rng.randint(1, ns - 1)) % ns}
+            elif op == "setrow":
+                return {"op": op, "row": row, "vals": [rng.randrange(ns) for _ in cur[row]]}
+            elif op == "swap":
+                j = rng.choice([x for x in range(len(cur)) if x != row])
+                return {"op": op, "i": row, "j": j}
+            elif op == "append":
+                if len(cur) < 7:
+                    return {"op": op, "rows": [[rng.randrange(ns) for _ in range(rng.randint(1, 6))]
+                                               for _ in range(rng.randint(1, 2))]}
+            elif op == "realloc":
+                # a new container of exactly the same shape (often lands at the same address once the old one is dropped)
+                return {"op": op, "trjs": [[rng.randrange(ns) for _ in t] for t in cur]}
+        return {"op": "set", "row": 0, "col": 0, "val": (cur[0][0] + 1) % ns}
+
+    for _ in range(rng.randint(2, 6)):
+        for _ in range(rng.choice([1, 1, 1, 2])):
+            st = mutation()
+            cur = _apply(cur, st)
+            steps.append(st)
+        if rng.random() < 0.25:
+            steps.append(dict(_count_params(rng, ns), op="other",
+                              trjs=[[rng.randrange(ns) for _ in range(rng.randint(1, 8))] for _ in range(rng.randint(1, 3))]))
+        # mostly the very same call as before the edit (a stale answer is then plainly visible)
+        last = dict(last) if rng.random() < 0.5 else dict(_count_params(rng, ns), op="count")
+        steps.append(last)
+        if rng.random() < 0.2:
+            last = dict(_count_params(rng, ns), op="count")
+            steps.append(last)
+    c["steps"] = steps
+    return c
+
+
+def _gen_flag(rng):
+    ns = rng.randint(2, 5)
+    trjs = [[rng.randrange(ns) for _ in range(rng.choice([1, 2, 3, 4, 5, 6, 7, 8, 10]))] for _ in range(rng.randint(1, 4))]
+    return {"kind": "flag", "trjs": trjs, "lag": rng.choice([1, 2, 2, 2, 3, 3, 4, 5]),
+            "maxn": rng.choice([None, None, ns, ns + 2]),
+            "flag": rng.choice(sorted(FLAG_TRUTH) + ["np.False_", "0", "False", "False", "False", "boolarr[1]", "np.int64(0)"])}
+
+
+def _gen_refit(rng):
+    fits = []
+    for _ in range(rng.randint(2, 4)):
+        ns = rng.randint(2, 6)
+        trjs = [[rng.randrange(ns) for _ in range(rng.randint(1, 8))] for _ in range(rng.randint(1, 3))]
+        fits.append({"trjs": trjs, "form": rng.choice(["ragged", "padded"])})
+    top = max(x for f in fits for t in f["trjs"] for x in t) + 1
+    return {"kind": "refit", "fits": fits, "lag": rng.choice([1, 1, 2, 3]),
+            "flag": rng.choice(["True", "False", "np.False_", "0", "1"]),
+            "maxn": None if rng.random() < 0.8 else top + rng.randint(0, 1)}
+
+
+def _snap(x):
+    """Everything a caller can observe of an argument."""
+    if isinstance(x, np.ndarray):
+        return ("ndarray", x.dtype.str, x.shape, x.strides, bool(x.flags.writeable), x.tobytes())
+    if hasattr(x, "_data") and hasattr(x, "lengths"):
+        return ("RaggedArray", x._data.dtype.str, np.asarray(x._data).tobytes(), [int(v) for v in x.lengths],
+                [np.asarray(r).tolist() for r in x._array])
+    return None
+
+
+def _brute_of(trjs, lag, sl, maxn):
+    n = maxn if maxn is not None else max(x for t in trjs for x in t) + 1
+    M = [[0] * n for _ in range(n)]
+    for t in trjs:
+        for p in range(len(t) - lag):
+            if sl or p % lag == 0:
+                M[t[p]][t[p + lag]] += 1
+    return M
+
+
+def _mk_padded(trjs, W, dtype, order="C"):
+    X = np.full((len(trjs), W), -1, dtype=dtype)
+    for i, t in enumerate(trjs):
+        X[i, :len(t)] = t
+    return np.asfortranarray(X) if order == "F" else X
+
+
+def _mk_ragged(trjs, dtype):
+    from enspara.ra.ra import RaggedArray
+    return RaggedArray([np.array(t, dtype=dtype) for t in trjs])
+
+
+def _msm_counts(X, lag, flag, maxn, est=None):
+    import functools
+    from enspara.msm import MSM, builders
+    if est is None:
+        est = MSM(lag_time=lag, method=functools.partial(builders.normalize, calculate_eq_probs=False),
+                  sliding_window=flag, max_n_states=maxn)
+    est.fit(X)
+    return est.tcounts_
+
+
+def _run_hist(c):
+    from enspara.msm.transition_matrices import assigns_to_counts
+    dt = c["dtype"]
+    padded = c["container"] == "padded"
+    mk = (lambda trjs: _mk_padded(trjs, c["width"], dt, c["order"])) if padded else (lambda trjs: _mk_ragged(trjs, dt))
+    X = mk(c["trjs"])
+    lens = [len(t) for t in c["trjs"]]       # only used to address the padding of a padded buffer
+    out = []
+    for k, st in enumerate(c["steps"]):
+        op = st["op"]
+        if op == "count":
+            content = [[int(v) for v in row if v != -1] for row in X]
+            res = _call(assigns_to_counts, X, st["lag"], max_n_states=st["maxn"], sliding_window=st["sliding"])
+            out.append({"i": k, "content": content, "res": res})
+        elif op == "other":
+            Y = _mk_ragged(st["trjs"], dt) if k % 2 else _mk_padded(st["trjs"], max(len(t) for t in st["trjs"]) + 1, dt)
+            out.append({"i": k, "res": _call(assigns_to_counts, Y, st["lag"], max_n_states=st["maxn"],
+                                             sliding_window=st["sliding"])})
+            del Y
+        elif op == "extend":
+            r, v = st["row"], st["vals"]
+            X[r, lens[r]:lens[r] + len(v)] = v
+            lens[r] += len(v)
+        elif op == "truncate":
+            X[st["row"], st["n"]:] = -1
+            lens[st["row"]] = st["n"]
+        elif op == "lump":
+            X[X == st["src"]] = st["dst"]
+        elif op == "set":
+            X[st["row"], st["col"]] = st["val"]
+        elif op == "setrow":
+            if padded:
+                X[st["row"], :len(st["vals"])] = st["vals"]
+            else:
+                X[st["row"]] = np.array(st["vals"], dtype=dt)
+        elif op == "swap":
+            i, j = st["i"], st["j"]
+            X[[i, j]] = X[[j, i]]
+            lens[i], lens[j] = lens[j], lens[i]
+        elif op == "append":
+            X.append([np.array(t, dtype=dt) for t in st["rows"]])
+        elif op == "realloc":
+            del X
+            X = mk(st["trjs"])
+            lens = [len(t) for t in st["trjs"]]
+    return {"steps": out}
+
+
+def _run_flag(c):
+    from enspara.msm.transition_matrices import assigns_to_counts
+    trjs, lag, maxn = c["trjs"], c["lag"], c["maxn"]
+    W = max(len(t) for t in trjs)
+    return {"ragged": _call(assigns_to_counts, _mk_ragged(trjs, "int64"), lag, max_n_states=maxn, sliding_window=_flag(c["flag"])),
+            "padded": _call(assigns_to_counts, _mk_padded(trjs, W, "int64"), lag, max_n_states=maxn, sliding_window=_flag(c["flag"])),
+            "msm": _call(_msm_counts, _mk_ragged(trjs, "int64"), lag, _flag(c["flag"]), maxn),
+            "msm_padded": _call(_msm_counts, _mk_padded(trjs, W + 1, "int64"), lag, _flag(c["flag"]), maxn)}
+
+
+def _run_refit(c):
+    import functools
+    from enspara.msm import MSM, builders
+    est = MSM(lag_time=c["lag"], method=functools.partial(builders.normalize, calculate_eq_probs=False),
+              sliding_window=_flag(c["flag"]), max_n_states=c["maxn"])
+    out = []
+    for f in c["fits"]:
+        X = _mk_ragged(f["trjs"], "int64") if f["form"] == "ragged" else \
+            _mk_padded(f["trjs"], max(len(t) for t in f["trjs"]), "int64")
+        out.append(_call(_msm_counts, X, None, None, None, est=est))
+    return {"fits": out}
+
+
+def _argmods(r):
+    """All sub-results that carry an `argmod` note."""
+    found = []
+    def walk(x):
+        if isinstance(x, dict):
+            if "argmod" in x:
+                found.append(x["argmod"])
+            for v in x.values():
+                walk(v)
+        elif isinstance(x, list):
+            for v in x:
+                walk(v)
+    walk(r)
+    return found
+
+
+def _hist_expected(c):
+    """[(step index, content at that moment, same-object-since)] for every count step of a history."""
+    cur = [list(t) for t in c["trjs"]]
+    out, epoch = {}, 0
+    for k, st in enumerate(c["steps"]):
+        if st["op"] == "count":
+            out[k] = (cur, epoch)
+        elif st["op"] == "realloc":
+            epoch += 1
+            cur = _apply(cur, st)
+        elif st["op"] != "other":
+            cur = _apply(cur, st)
+    return out
+
+
+def _hist_sensitive(c):
+    """Would an answer computed from the content at an earlier count of the same object be wrong at a later one?"""
+    exp = _hist_expected(c)
+    ks = sorted(exp)
+    for a in range(len(ks)):
+        for b in range(a + 1, len(ks)):
+            (ca, ea), (cb_, eb) = exp[ks[a]], exp[ks[b]]
+            st = c["steps"][ks[b]]
+            if ea == eb and ca != cb_ and _brute_of(ca, st["lag"], st["sliding"], st["maxn"]) != \
+                    _brute_of(cb_, st["lag"], st["sliding"], st["maxn"]):
+                return True
+    return False
+
+
+def _oracle_hist(c, r):
+    out = []
+    exp = _hist_expected(c)
+    seen = []      # (step, content, params) of earlier counts, to name a stale answer
+    for rec in r["steps"]:
+        k = rec["i"]
+        st = c["steps"][k]
+        res = rec["res"]
+        if st["op"] == "other":
+            want = _brute_of(st["trjs"], st["lag"], st["sliding"], st["maxn"])
+            if res.get("mat") != want:
+                out.append(("counts-history-other", "step %d counts an unrelated object %s (lag %d, sliding %s, max_n_states %s): got %s expected %s"
+                            % (k, st["trjs"], st["lag"], st["sliding"], st["maxn"], res, want)))
+            continue
+        content, _ = exp[k]
+        if rec["content"] != content:
+            out.append(("history-edit", "step %d: container holds %s, the edits so far should give %s" % (k, rec["content"], content)))
+            continue
+        want = _brute_of(content, st["lag"], st["sliding"], st["maxn"])
+        if res.get("mat") != want:
+            stale = [j for j, cj in seen if cj != content and
+                     _brute_of(cj, st["lag"], st["sliding"], st["maxn"]) == res.get("mat")]
+            note = (" (these are the counts of what the same object held at step %d: %s)" % (stale[-1], dict(seen)[stale[-1]])) if stale else ""
+            out.append(("counts-history", "%s %s container counted at step %d after in-place steps %s: content now %s, lag %d, sliding %s, "
+                        "max_n_states %s: got %s expected %s%s" % (
+                            c["container"], c["dtype"], k, [s for s in c["steps"][:k] if s["op"] not in ("count", "other")],
+                            content, st["lag"], st["sliding"], st["maxn"], res, want, note)))
+        seen.append((k, content))
+    return out
+
+
+def _oracle_flag(c, r):
+    out = []
+    sl = FLAG_TRUTH[c["flag"]]
+    want = _brute_of(c["trjs"], c["lag"], sl, c["maxn"])
+    for form in ("ragged", "padded", "msm", "msm_padded"):
+        if r[form].get("mat") != want:
+            key = "counts-msm" if form.startswith("msm") else "counts-flag"
+            out.append((key, "sliding_window=%s (%s), lag %d, max_n_states %s, %s on %s input %s: got %s expected %s" % (
+                c["flag"], "on" if sl else "off", c["lag"], c["maxn"],
+                "MSM(...).fit(X).tcounts_" if form.startswith("msm") else "assigns_to_counts",
+                "padded" if "padded" in form else "ragged", c["trjs"], r[form], want)))
+    return out
+
+
+def _oracle_refit(c, r):
+    out = []
+    sl = FLAG_TRUTH[c["flag"]]
+    for k, (f, res) in enumerate(zip(c["fits"], r["fits"])):
+        want = _brute_of(f["trjs"], c["lag"], sl, c["maxn"])
+        if res.get("mat") != want:
+            out.append(("counts-msm-refit", "one MSM(lag_time=%d, sliding_window=%s, max_n_states=%s) fitted on %s in turn; after fit #%d "
+                        "(data %s) tcounts_ is %s, expected %s" % (c["lag"], c["flag"], c["maxn"], [g["trjs"] for g in c["fits"][:k + 1]],
+                                                                  k, f["trjs"], res, want)))
+    return out
+
+
+def _cmp_term(sl, lag, maxn, trjs, m):
+    if "mat" in m:
+        exp = "(Some %s)" % clist(m["mat"], lambda row: clist(row, cn, "nat"), "(list nat)")
+    else:
+        exp = "(@None (list (list nat)))"
+    args = "%s %s %s %s" % (cb(sl), cz(lag), copt(maxn, cz, "Z"), clist(trjs, lambda t: clist(t, cz, "Z"), "(list Z)"))
+    return "CaseLib.opt_eqb (CaseLib.list_eqb CaseLib.nl_eqb) (assigns_to_counts %s) %s" % (args, exp)
+
+
+def _conj(terms):
+    t = "true"
+    for x in reversed(terms):
+        t = "andb (%s) (%s)" % (x, t)
+    return t
+
+
 def _call(fn, *a, **k):
+    before = [_snap(x) for x in a]
     try:
-        return {"mat": fn(*a, **k).toarray().tolist()}
+        m = fn(*a, **k)
+        m = m.toarray() if hasattr(m, "toarray") else np.asarray(m)
+        res = {"mat": m.tolist()}
     except Exception as ex:
-        return {"err": type(ex).__name__}
+        res = {"err": type(ex).__name__}
+    for i, (b, x) in enumerate(zip(before, a)):
+        if b is not None and _snap(x) != b:
+            res["argmod"] = "argument %d (%s) was %s and is %s after the call" % (i, b[0], str(b[1:])[:300], str(_snap(x)[1:])[:300])
+    return res
 
 
 def run_impl(c):
+    if c.get("kind") == "hist":
+        return _run_hist(c)
+    if c.get("kind") == "flag":
+        return _run_flag(c)
+    if c.get("kind") == "refit":
+        return _run_refit(c)
     from enspara.msm.transition_matrices import assigns_to_counts
     from enspara.ra.ra import RaggedArray
     trjs, lag, sl, maxn = c["trjs"], c["lag"], c["sliding"], c["maxn"]
@@ -97,9 +493,15 @@ def _brute(c):
 
 
 def oracle(c, r):
-    out = []
+    out = [("argument-modified", m) for m in _argmods(r)]
+    if c.get("kind") == "hist":
+        return out + _oracle_hist(c, r)
+    if c.get("kind") == "flag":
+        return out + _oracle_flag(c, r)
+    if c.get("kind") == "refit":
+        return out + _oracle_refit(c, r)
     if c["lag"] < 1:
-        return [] if all("err" in r[f] for f in ("ragged", "padded", "reversed")) else [("lag-accepted", "lag %d accepted: %s" % (c["lag"], str(r)[:200]))]
+        return out + ([] if all("err" in r[f] for f in ("ragged", "padded", "reversed")) else [("lag-accepted", "lag %d accepted: %s" % (c["lag"], str(r)[:200]))])
     exp = _brute(c)
     for form in ("ragged", "padded", "reversed"):
         if r[form].get("mat") != exp:
@@ -121,6 +523,15 @@ def _args(c):
 
 
 def coq_check(c, r):
+    if c.get("kind") == "hist":
+        exp = _hist_expected(c)
+        return _conj([_cmp_term(c["steps"][rec["i"]]["sliding"], c["steps"][rec["i"]]["lag"], c["steps"][rec["i"]]["maxn"],
+                                exp[rec["i"]][0] if c["steps"][rec["i"]]["op"] == "count" else c["steps"][rec["i"]]["trjs"], rec["res"])
+                      for rec in r["steps"]])
+    if c.get("kind") == "flag":
+        return _conj([_cmp_term(FLAG_TRUTH[c["flag"]], c["lag"], c["maxn"], c["trjs"], r[f]) for f in ("ragged", "msm")])
+    if c.get("kind") == "refit":
+        return _conj([_cmp_term(FLAG_TRUTH[c["flag"]], c["lag"], c["maxn"], f["trjs"], m) for f, m in zip(c["fits"], r["fits"])])
     m = r["ragged"]
     if "mat" in m:
         exp = "(Some %s)" % clist(m["mat"], lambda row: clist(row, cn, "nat"), "(list nat)")
@@ -130,14 +541,56 @@ def coq_check(c, r):
 
 
 def coq_show(c):
+    if c.get("kind") == "hist":
+        exp = _hist_expected(c)
+        ks = sorted(exp)
+        return "[%s]" % "; ".join("assigns_to_counts %s %s %s %s" % (
+            cb(c["steps"][k]["sliding"]), cz(c["steps"][k]["lag"]), copt(c["steps"][k]["maxn"], cz, "Z"),
+            clist(exp[k][0], lambda t: clist(t, cz, "Z"), "(list Z)")) for k in ks)
+    if c.get("kind") == "flag":
+        return "assigns_to_counts %s %s %s %s" % (cb(FLAG_TRUTH[c["flag"]]), cz(c["lag"]), copt(c["maxn"], cz, "Z"),
+                                                  clist(c["trjs"], lambda t: clist(t, cz, "Z"), "(list Z)"))
+    if c.get("kind") == "refit":
+        return "[%s]" % "; ".join("assigns_to_counts %s %s %s %s" % (
+            cb(FLAG_TRUTH[c["flag"]]), cz(c["lag"]), copt(c["maxn"], cz, "Z"),
+            clist(f["trjs"], lambda t: clist(t, cz, "Z"), "(list Z)")) for f in c["fits"])
     return "assigns_to_counts %s" % _args(c)
 
 
 def nontrivial(c, r):
+    if c.get("kind") == "hist":
+        return _hist_sensitive(c)
+    if c.get("kind") == "flag":
+        return any(len(t) > c["lag"] for t in c["trjs"]) and len({x for t in c["trjs"] for x in t}) >= 2
+    if c.get("kind") == "refit":
+        return len({max(x for t in f["trjs"] for x in t) for f in c["fits"]}) >= 2
     return c["lag"] >= 1 and any(len(t) > c["lag"] for t in c["trjs"]) and len({x for t in c["trjs"] for x in t}) >= 2
 
 
 def tags(c, r):
+    if c.get("kind") == "hist":
+        t = ["hist-" + c["container"]] + sorted({"hist-" + s["op"] for s in c["steps"] if s["op"] != "count"})
+        if _hist_sensitive(c):
+            t.append("hist-sensitive")
+        if c.get("order") == "F":
+            t.append("hist-F-order")
+        return t
+    if c.get("kind") == "flag":
+        f = c["flag"]
+        t = ["msm", "flag-on" if FLAG_TRUTH[f] else "flag-off",
+             "flag-py-bool" if f in ("True", "False") else "flag-np-bool" if ("_" in f or "arr" in f) else "flag-int"]
+        if not FLAG_TRUTH[f] and c["lag"] >= 2 and any(len(x) > c["lag"] + 1 for x in c["trjs"]):
+            t.append("flag-np-false-visible" if t[2] == "flag-np-bool" else "flag-zero-visible" if t[2] == "flag-int" else "flag-False-visible")
+        return t
+    if c.get("kind") == "refit":
+        t = ["msm", "msm-refit"]
+        tops = [max(x for tr in f["trjs"] for x in tr) for f in c["fits"]]
+        if c["maxn"] is None:
+            if any(b < a for a, b in zip(tops, tops[1:])):
+                t.append("msm-refit-fewer-states")
+            if any(b > a for a, b in zip(tops, tops[1:])):
+                t.append("msm-refit-more-states")
+        return t
     t = ["sliding" if c["sliding"] else "strided", "maxn-given" if c["maxn"] is not None else "maxn-inferred"]
     if c["lag"] < 1:
         t.append("lag-below-one")
@@ -148,4 +601,7 @@ def tags(c, r):
     return t
 
 
-ESSENTIAL_TAGS = ["sliding", "strided", "traj-shorter-than-lag", "maxn-inferred", "narrow-dtype", "lag-below-one"]
+ESSENTIAL_TAGS = ["sliding", "strided", "traj-shorter-than-lag", "maxn-inferred", "narrow-dtype", "lag-below-one",
+                  "hist-padded", "hist-ragged", "hist-sensitive", "hist-extend", "hist-lump", "hist-set", "hist-realloc", "hist-append",
+                  "flag-np-false-visible", "flag-zero-visible", "flag-False-visible", "msm",
+                  "msm-refit-fewer-states", "msm-refit-more-states"]
